@@ -46,7 +46,9 @@ def unquote(lit):
 
 def coq_stok(c, t, nm):
     if c == "var":
-        return "SAtom (AVar %d%%nat)" % nm.var(t[1:] if t.startswith("$") else t)
+        if not t.startswith("$"):
+            return "SOther"      # an identifier that the lexer's pass 4 turned into a variable (`f = 1; f(2)`): outside the model
+        return "SAtom (AVar %d%%nat)" % nm.var(t[1:])
     if c == "int":
         if t.startswith("-") and t[1:].isdigit():
             return "SAtom (ANum true %s)" % t[1:]
